@@ -231,10 +231,10 @@ FAMILIES = {
     "ods-columns-repeated-empty": (f_ods_empty_cols_repeated, [250_000, 500_000, 1_000_000, 2_000_000], "count"),
     "odt-space-count": (f_odt_space_count, [25_000_000, 50_000_000, 100_000_000, 200_000_000], "count"),
     "odp-space-count": (f_odp_space_count, [25_000_000, 50_000_000, 100_000_000, 200_000_000], "count"),
-    "odt-table-cell-and-row-repeated": (f_odt_table_cell_repeated, [500_000, 1_000_000, 2_000_000, 4_000_000], "count"),
-    "odp-table-cell-and-row-repeated": (f_odp_table_cell_repeated, [500_000, 1_000_000, 2_000_000, 4_000_000], "count"),
-    "html-colspan-rowspan": (f_html_colspan, [500_000, 1_000_000, 2_000_000, 4_000_000], "count"),
-    "docx-gridspan": (f_docx_gridspan, [500_000, 1_000_000, 2_000_000, 4_000_000], "count"),
+    "odt-table-cell-and-row-repeated": (f_odt_table_cell_repeated, [2_000_000, 4_000_000, 8_000_000, 16_000_000], "count"),
+    "odp-table-cell-and-row-repeated": (f_odp_table_cell_repeated, [2_000_000, 4_000_000, 8_000_000, 16_000_000], "count"),
+    "html-colspan-rowspan": (f_html_colspan, [2_000_000, 4_000_000, 8_000_000, 16_000_000], "count"),
+    "docx-gridspan": (f_docx_gridspan, [2_000_000, 4_000_000, 8_000_000, 16_000_000], "count"),
     "xlsx-declared-dimension": (f_xlsx_declared_dimension, [100, 200, 400, 800], "count"),
     "docx-deep-nested-tables": (f_docx_deep_tables, [20, 40, 80, 160], "size"),
     "docx-entity-expansion": (f_docx_entity_bomb, [4, 6, 8, 10], "count"),
